@@ -8,6 +8,7 @@ import (
 	"regexp"
 	"runtime"
 	"strings"
+	"sync"
 	"syscall"
 	"time"
 
@@ -758,6 +759,9 @@ func (decWorld) Exec(prop string, t *Trace) *Result {
 				fmt.Fprintf(os.Stderr, "AT %d\n", i)
 			}
 			for n := 0; n < len(s.cur); n++ {
+				if journal && n%256 == 255 {
+					fmt.Fprintf(os.Stderr, "AT %d\n", i)
+				}
 				if receive(res, prop, i, s.cur[:n], st, bud) {
 					nontrivial++
 				}
@@ -802,6 +806,9 @@ func (decWorld) Exec(prop string, t *Trace) *Result {
 					cur := append([]byte{}, s.cur...)
 					cur[off] = byte(v)
 					n++
+					if journal && n%256 == 255 {
+						fmt.Fprintf(os.Stderr, "AT %d\n", i)
+					}
 					if receive(res, prop, i, cur, st, bud) {
 						nontrivial++
 					}
@@ -856,13 +863,46 @@ func setAddressSpaceLimit(mb int) {
 
 var lastAT = regexp.MustCompile(`(?m)^AT ([0-9]+)$`)
 
+// progressWriter receives the child's stderr: it remembers the tail, the last
+// journalled step and when the journal last moved.
+type progressWriter struct {
+	mu     sync.Mutex
+	buf    bytes.Buffer
+	last   time.Time
+	lastAT int
+}
+
+func (w *progressWriter) Write(p []byte) (int, error) {
+	w.mu.Lock()
+	defer w.mu.Unlock()
+	w.buf.Write(p)
+	if w.buf.Len() > 1<<16 {
+		b := w.buf.Bytes()
+		keep := append([]byte{}, b[len(b)-(1<<15):]...)
+		w.buf.Reset()
+		w.buf.Write(keep)
+	}
+	if m := lastAT.FindAllSubmatch(p, -1); len(m) > 0 {
+		fmt.Sscan(string(m[len(m)-1][1]), &w.lastAT)
+		w.last = time.Now()
+	}
+	return len(p), nil
+}
+
+func (w *progressWriter) snapshot() (string, int, time.Time) {
+	w.mu.Lock()
+	defer w.mu.Unlock()
+	return w.buf.String(), w.lastAT, w.last
+}
+
 func runDecIsolated(prop string, tr *Trace) *Result {
 	tj, _ := json.Marshal(tr)
 	cmd := exec.Command(os.Args[0], "-exec1", "-", "-prop", prop, "-aslimit", "4096")
 	cmd.Env = append(os.Environ(), "VERIF_JOURNAL=1")
 	cmd.Stdin = bytes.NewReader(tj)
-	var so, se bytes.Buffer
-	cmd.Stdout, cmd.Stderr = &so, &se
+	var so bytes.Buffer
+	se := &progressWriter{last: time.Now(), lastAT: -1}
+	cmd.Stdout, cmd.Stderr = &so, se
 	if err := startWithRetry(cmd); err != nil {
 		r := newResult()
 		r.Fatal = "cannot start child: " + err.Error()
@@ -870,13 +910,28 @@ func runDecIsolated(prop string, tr *Trace) *Result {
 	}
 	done := make(chan error, 1)
 	go func() { done <- cmd.Wait() }()
+	// Liveness is judged by journal progress, not by total wall time, so that a
+	// loaded machine cannot turn a slow run into a verdict: the child journals
+	// every delivery (and every 256 deliveries of a sweep); 60 s without any
+	// progress is a decoder that does not return.
 	timedOut := false
-	select {
-	case <-done:
-	case <-time.After(120 * time.Second):
-		timedOut = true
-		_ = cmd.Process.Kill()
-		<-done
+	started := time.Now()
+	tick := time.NewTicker(time.Second)
+	defer tick.Stop()
+wait:
+	for {
+		select {
+		case <-done:
+			break wait
+		case <-tick.C:
+			_, _, last := se.snapshot()
+			if time.Since(last) > 60*time.Second || time.Since(started) > 900*time.Second {
+				timedOut = true
+				_ = cmd.Process.Kill()
+				<-done
+				break wait
+			}
+		}
 	}
 	if idx := strings.LastIndex(so.String(), "RESULT "); idx >= 0 && !timedOut {
 		var w resultWire
@@ -890,16 +945,12 @@ func runDecIsolated(prop string, tr *Trace) *Result {
 	}
 	// the child died (or hung): attribute it to the journalled delivery
 	r := newResult()
-	at := -1
-	if m := lastAT.FindAllStringSubmatch(se.String(), -1); len(m) > 0 {
-		fmt.Sscan(m[len(m)-1][1], &at)
-	}
-	stderr := se.String()
+	stderr, at, _ := se.snapshot()
 	oom := strings.Contains(stderr, "out of memory") || strings.Contains(stderr, "cannot allocate memory")
 	why := "died"
 	switch {
 	case timedOut:
-		why = "did not finish within 120 s"
+		why = "made no progress for 60 s (or did not finish within 900 s)"
 	case oom:
 		why = "was killed by the runtime: out of memory under a 4 GiB address-space cap"
 	case strings.Contains(stderr, "stack overflow") || strings.Contains(stderr, "stack exceeds"):
